@@ -88,4 +88,56 @@ def check(ctx, prefix="pipeline"):
            "C, Z, N, IE are bits 0..3 of R4; each setter changes only its bit and the getter reads it back",
            "register.rs Register::set_*_flag / *_flag", "disagreeing cases: %s" % fb[:4],
            "constant propagation through the setters/getters on four bit patterns")
+    # 5. the accessors the pipeline and the sequencer read through are plain getters of the named field
+    ALUO = "L::machine::alu::AluOutput"
+    fn_out = p.field_names(ALUO)
+    gb = []
+    for getter, fld in (("output", "output"), ("carry_out", "carry_out"), ("zero_out", "zero_out"), ("negative_out", "negative_out")):
+        I = absint.Interp(p)
+        st = absint.State()
+        a = I.new_alloc(st, "alu", Agg([Opaque("alu." + f) for f in fn_out]))
+        r = I.run_body(p.need_body("%s::%s" % (ALUO, getter)), [Ref(a, (), False)], st, 0)
+        if r != Opaque("alu." + fld):
+            gb.append("AluOutput::%s returns %r" % (getter, r))
+    # flag inputs of the sequencer / the ALU carry input: bit 0..3 of R4 through Signals
+    sigs = "L::machine::raw::signals::Signals::<'a>::"
+    frm = "<L::machine::raw::signals::Signals<'a> as core::convert::From<&'a L::machine::raw::RawMachine>>::from"
+    for name, bit in (("carry_flag", 0), ("zero_flag", 1), ("negative_flag", 2), ("interrupt_enable_flag", 3)):
+        for pat in (0x00, 0xFF, 1 << bit, 0xFF ^ (1 << bit)):
+            I = absint.Interp(p)
+            st = absint.State()
+            ov = step.machine_overrides(p, 0, "Running", False, 0, 0, extra={"register.content": Arr([7, 7, 7, 7, pat, 7, 7, 7])})
+            ma = step.new_machine(p, I, st, ov)
+            sv = I.run_body(p.need_body(frm), [Ref(ma, (), False)], st, 0)
+            sa_ = I.new_alloc(st, "signals", sv)
+            r = I.run_body(p.need_body(sigs + name), [Ref(sa_, (), False)], st, 0)
+            want = (pat >> bit) & 1
+            if r not in (want, bool(want)):
+                gb.append("Signals::%s with R4=%#04x returns %r" % (name, pat, r))
+    # Signals::from wires the ALU condition outputs and the interrupt flip-flops to the sequencer inputs of the same name
+    SIG = "L::machine::raw::signals::Signals"
+    sn = p.field_names(SIG)
+    I = absint.Interp(p)
+    st = absint.State()
+    ov = step.machine_overrides(p, 0, "Running", False, 0, 0,
+                                extra={"alu_output": Agg([Opaque("alu." + f) for f in fn_out]),
+                                       "pending_edge_interrupt": En({1: (Agg(()),)}), "pending_level_interrupt": En({0: ()})})
+    ma = step.new_machine(p, I, st, ov)
+    sv = I.run_body(p.need_body(frm), [Ref(ma, (), False)], st, 0)
+    if isinstance(sv, Agg):
+        fd = dict(zip(sn, sv.f))
+        for f in ("carry_out", "zero_out", "negative_out"):
+            if fd.get(f) != Opaque("alu." + f):
+                gb.append("Signals.%s is wired to %r" % (f, fd.get(f)))
+        sa_ = I.new_alloc(st, "signals", sv)
+        r1 = I.run_body(p.need_body(sigs + "interrupt_flipflop_1"), [Ref(sa_, (), False)], st, 0)
+        r2 = I.run_body(p.need_body(sigs + "level_interrupt"), [Ref(sa_, (), False)], st, 0)
+        if r1 not in (1, True) or r2 not in (0, False):
+            gb.append("flip-flop pending / level clear: interrupt_flipflop_1() = %r, level_interrupt() = %r" % (r1, r2))
+    else:
+        gb.append("Signals::from not analysable: %r" % (sv,))
+    chk.ob("%s/accessors" % prefix, not gb,
+           "the ALU output accessors return the field they name; the sequencer's C/Z/N/IE inputs and the ALU's carry input are "
+           "bits 0..3 of R4", "alu.rs accessors, raw/signals.rs Signals::from / *_flag", "; ".join(gb[:4]),
+           "abstract interpretation with opaque fields / constant propagation on four bit patterns")
     return dp
